@@ -411,9 +411,12 @@ class FnEval:
         self.hook_frame = F0
 
     # -------------------------------------------------------------- helpers
-    def conflict_check(self, conflicts, where, line, rule="A5"):
+    def conflict_check(self, conflicts, where, line, rule="A5", sided=None):
         if not self.report:
             return
+        if rule == "A5" and sided:
+            self.ctx.ob("A5", not [c for c in conflicts if c[0] != "unit"],
+                        "%s: %s joins %s" % (self.fn.path, where, sided))
         for kind_, a, b in conflicts:
             if kind_ == "unit":
                 self.ctx.finding("A6", self.fn, "unit-mix:" + where,
@@ -430,8 +433,12 @@ class FnEval:
             self.tys[hid] = ty
         av = self.apply_name(name, av, line, ty or self.tys.get(hid))
         conflicts = []
-        new = join(self.env.get(hid), av, conflicts)
-        self.conflict_check(conflicts, "variable `%s`" % name, line)
+        old = self.env.get(hid)
+        new = join(old, av, conflicts)
+        sided = None
+        if old is not None and av is not None and old != av and (sides_of(old) or sides_of(av)):
+            sided = "%s with %s" % (show(old), show(av))
+        self.conflict_check(conflicts, "variable `%s`" % name, line, sided=sided)
         self.env[hid] = new
 
     def apply_name(self, name, av, line, ty=None):
@@ -1612,7 +1619,9 @@ class FnEval:
         conflicts = []
         nk = join(m[1], kv, conflicts)
         nv = join(m[2], vv, conflicts) if vv is not None else m[2]
-        self.conflict_check(conflicts, "map key/value `%s`" % _norm_src(str(recv.get("res", {}).get("name", "map"))), line)
+        sided = ("key %s with %s" % (show(m[1]), show(kv))) if (m[1] is not None and kv is not None) else None
+        self.conflict_check(conflicts, "map key/value `%s`" % _norm_src(str(recv.get("res", {}).get("name", "map"))), line,
+                            sided=sided)
         self.store(recv, M(nk, nv), line)
 
 
